@@ -164,4 +164,19 @@ CLAIMED = {
              "size, with the same validated fields; the time-index item list written equals the list read and hashed; Toc::decode returns Ok only on the bytes_read == len edge in all three format arms.",
         note="Not decided: round-trip equality for arbitrary values; bincode/serde themselves (external).",
         design_ref="DESIGN.md §4 C30"),
+    "C17": dict(
+        technique="lock-follows-file typestate at every rename over the memory path + constructor pairing / who-may-unlock tables + guard-edge checks on lock mode changes",
+        text="Partial: wherever the file at the memory's path is replaced by rename, every Ok exit after it is dominated by a store of a freshly acquired FileLock (on the new inode) "
+             "into Memvid.lock; every constructor pairs file and lock from one acquisition; the OS unlock happens only inside FileLock; the exclusive lock is given up only when "
+             "nothing is dirty or pending; read_only is cleared only after a successful upgrade.",
+        note="Not decided: interleavings of two processes, flock semantics of the platform (fs2 trusted). The rule found a genuine defect (lock left on the pre-rename inode), repaired by fix commit 0f828e2.",
+        design_ref="DESIGN.md §4 C17"),
+    "C18": dict(
+        technique="interprocedural effect analysis: reachability of memory-file writes from 146 public entry points without passing a writability guard (guard-establishing callees summarised to a fixpoint over ~1480 functions) + call-graph exclusion for the snapshot path",
+        text="Partial (effect discipline): from every public Memvid self-method and read-only constructor no write to the memory file is reachable before the success edge of a "
+             "writability guard; the read-only snapshot open cannot reach WAL replay, takes its TOC from the tail snapshot, opens the WAL read-only and is constructed read_only; "
+             "every writing EmbeddedWal method passes assert_writable.",
+        note="Not decided: byte equality of the file before/after (runtime). Fix commit for the header rewrite on read-only open is recorded in known_findings. Untriaged candidates "
+             "(reported, not verdicts): footer realignment reachable from search/open_read_only via init_tantivy; begin_batch writes without a guard.",
+        design_ref="DESIGN.md §4 C18"),
 }
